@@ -29,6 +29,9 @@ type xconvCase struct {
 	sharedOutput bool
 }
 
+// xconvGlobals: settings given on the command line (-g) in every run of the named case.
+var xconvGlobals = map[string][]string{}
+
 func xconvCases() []xconvCase {
 	shEnums := "package sh\n\ntype Col int\n\nconst (\n\tColRed Col = 1\n\tColBlue Col = 2\n)\n\ntype Hue int\n\nconst (\n\tColRed2 Hue = 10\n\tHueRed Hue = 10\n\tHueBlue Hue = 20\n)\n"
 	enumConv := func(pkg, extra, method string) string {
@@ -235,13 +238,63 @@ func outputResolutionCases() []xconvCase {
 			out = append(out, xconvCase{
 				name: fmt.Sprintf("output-existing-package-name-kept-%s-from-%s", ref, first),
 				files: map[string]string{
-					"pb/b.go":                 "package pb\n\n" + types + "\n// goverter:converter\ntype B interface {\n\tConvert(source In) Out\n}\n",
+					"pb/b.go":                  "package pb\n\n" + types + "\n// goverter:converter\ntype B interface {\n\tConvert(source In) Out\n}\n",
 					"pb/generated/existing.go": "package bgen\n\n// Existing keeps the package name of this directory.\nconst Existing = 1\n",
 					first + "/a.go":            "package " + first + "\n\nimport \"vx/pb\"\n\n// goverter:converter\n" + conv + "type A interface {\n" + meth + "\tConvert(source pb.In) pb.Out\n}\n",
 				},
 				pkgs: []string{"./" + first, "./pb"},
 			})
 		}
+	}
+	return out
+}
+
+// sharedFunctionCases: (1) one custom function named by two converters of a run, for one of which it is acceptable and
+// for the other not (its first parameter is the first converter's interface, so for the second it is a second source):
+// the faulty converter must fail the run whatever was decided for its sibling; (2) input packages in different
+// directories that share their package NAME, with a command-line output:file: each lands in the package that already
+// exists at its own output location.
+func sharedFunctionCases() []xconvCase {
+	var out []xconvCase
+	for _, role := range []string{"extend", "map", "default"} {
+		for _, first := range []string{"pa", "pz"} {
+			other := map[string]string{"pa": "pz", "pz": "pa"}[first]
+			fn := "func F(c A, s string) string { return s }\nfunc D(c A, s In) Out { return Out{} }\n"
+			conv := func(name, pkgq string) (string, string) {
+				switch role {
+				case "extend":
+					return "// goverter:extend " + pkgq + "F\n", ""
+				case "map":
+					return "", "\t// goverter:map Name | " + pkgq + "F\n"
+				}
+				return "", "\t// goverter:default " + pkgq + "D\n"
+			}
+			ca, ma := conv("A", "")
+			cb, mb := conv("B", "vx/"+first+":")
+			out = append(out, xconvCase{
+				name: fmt.Sprintf("exit-shared-function-converter-param-%s-owner-%s", role, first),
+				files: map[string]string{
+					first + "/a.go": "package " + first + "\n\ntype In struct{ Name string }\ntype Out struct{ Name string }\n\n" + fn + "\n// goverter:converter\n" + ca + "type A interface {\n" + ma + "\tConvert(source In) Out\n}\n",
+					other + "/b.go": "package " + other + "\n\nimport \"vx/" + first + "\"\n\n// goverter:converter\n" + cb + "type B interface {\n" + mb + "\tConvert(source " + first + ".In) " + first + ".Out\n}\n",
+				},
+				pkgs: []string{"./" + first, "./" + other},
+			})
+		}
+	}
+	for _, existing := range []string{"first", "second", "both"} {
+		files := map[string]string{
+			"order/convert/c.go": "package convert\n\ntype In struct{ Name string }\ntype Out struct{ Name string }\n\n// goverter:converter\ntype C interface {\n\tConvert(source In) Out\n}\n",
+			"user/convert/c.go":  "package convert\n\ntype In struct{ Age int }\ntype Out struct{ Age int }\n\n// goverter:converter\ntype C interface {\n\tConvert(source In) Out\n}\n",
+		}
+		if existing != "second" {
+			files["order/convert/out/doc.go"] = "package ordergen\n\nconst Existing = 1\n"
+		}
+		if existing != "first" {
+			files["user/convert/out/doc.go"] = "package usergen\n\nconst Existing = 1\n"
+		}
+		name := "output-same-package-name-in-two-directories-existing-" + existing
+		xconvGlobals[name] = []string{"output:file ./out/conv.gen.go"}
+		out = append(out, xconvCase{name: name, files: files, pkgs: []string{"./order/convert", "./user/convert"}})
 	}
 	return out
 }
@@ -275,7 +328,7 @@ func RunXConvFiltered(run *ev.Run, prefix string) int {
 	var wg sync.WaitGroup
 	sem := make(chan bool, nWorkers)
 	nruns := 0
-	for ci, c := range append(append(xconvCases(), roleLeakCases()...), outputResolutionCases()...) {
+	for ci, c := range append(append(append(xconvCases(), roleLeakCases()...), outputResolutionCases()...), sharedFunctionCases()...) {
 		if !strings.HasPrefix(c.name, prefix) {
 			continue
 		}
@@ -289,7 +342,11 @@ func RunXConvFiltered(run *ev.Run, prefix string) int {
 			gen := func(tag string, pats []string) (fshist.Tree, *fshist.Run) { return genIn(tag, pats, t) }
 			genIn = func(tag string, pats []string, t fshist.Tree) (fshist.Tree, *fshist.Run) {
 				dir := filepath.Join(base, fmt.Sprintf("x%d-%s", ci, tag))
-				after, r, err := fshist.RunIn(bin, t, dir, "", nil, append([]string{"gen"}, pats...)...)
+				args := []string{"gen"}
+				for _, g := range xconvGlobals[c.name] {
+					args = append(args, "-g", g)
+				}
+				after, r, err := fshist.RunIn(bin, t, dir, "", nil, append(args, pats...)...)
 				if err == nil && r.Exit == 0 {
 					if br := drive.RunGo(dir, 5*60e9, "build", "./..."); br.Exit != 0 {
 						mu.Lock()
